@@ -91,7 +91,7 @@ def build_variant(work: Path, tag, files, fmt, variant, r):
     env = {}
     cwd = root
     kind = variant["kind"]
-    ext_font = "Font.otf" if fmt.startswith("cff") else "Font.ttf"
+    ext_font = "Font.ttf"   # the default output_file, whatever the outline flavour
     try:
         if kind == "argperm":
             r2 = common.rng("c08-perm", tag)
